@@ -115,6 +115,10 @@ CHECKS["C30"] = ("vcheck", "proptest batches of framed requests (valid, malforme
     "Generated search with shrinking; TCP: responses in request order, framed, octet-equal to the twin's, nothing extra, connection closed after the first response-less request (or after the client's EOF), also for batches ending in an incomplete frame; UDP: at most one datagram per request, equal to the twin's, from the server's address, to the socket that asked, not larger than the payload size.",
     "OS thread scheduling is not owned (segmentation, pipelining and pauses are). Client-side timeouts (3 s; the server's read timeout is 5 s) are retried on a fresh connection and reported only after three failures in a row; a close with unread pipelined data behind it (kernel RST may discard earlier responses) is counted, not judged; TSIG time-signed of unsigned error responses may differ by 5 s.", "§4 C30")
 
+CHECKS["C31"] = ("vcheck", "model-based stateful testing against the real daemon: proptest histories of configuration and zone-file edits over five nested zones with SIGHUP after each step; oracle = reference model 'latest good data per zone' compared through UDP probes whose answers identify zone and version",
+    "Generated search with shrinking over histories of 1-8 steps (per zone: configured or not x keep / new valid version / touch / syntactically broken / fails validation / deleted / renamed; generated order of the zones in the configuration; blocking and Tokio providers); 15 probes per step (apex, www, nonexistent name of every zone) judged for REFUSED / SERVFAIL / data of (zone, version) / negative answer of the enclosing (zone, version).",
+    "quandaryd is built from /repo's working tree into /verif/.target-daemon and run as a child process on a loopback port; a sentinel zone whose TXT carries the step number tells when the atomically swapped catalog is live; modification times are set explicitly and strictly increase with every write; a daemon that does not come up or never shows the sentinel is exit 2, not a violation.", "§4 C31")
+
 NOT_YET = {}
 
 def main():
